@@ -56,7 +56,10 @@ def gated(name, item_text):
     """Truth entry of a visible fn: its name followed by its `#[cfg(..)]` attributes (spaces removed), in source order."""
     import re
     head = item_text.split(" fn ")[0]
-    return name + "".join("#" + g.replace(" ", "") for g in re.findall(r"#\[(cfg\((?:[^\[\]]|\[[^\]]*\])*\))\]", head))
+    gates = re.findall(r"#\[(cfg(?:_attr)?\((?:[^\[\]]|\[[^\]]*\])*\))\]", head)
+    # (a cfg_attr is a gate only when it carries nothing but cfg(..): `cfg_attr(pred, cfg(x))`)
+    gates = [g for g in gates if g.startswith("cfg(") or re.match(r"^cfg_attr\(.*, cfg\([^,]*\)\)$", g)]
+    return name + "".join("#" + g.replace(" ", "") for g in gates)
 
 
 def gen_module(rng, cid, n_items=None):
@@ -80,6 +83,13 @@ def gen_module(rng, cid, n_items=None):
                 if rng.random() < 0.4:
                     items.append(rng.choice(soup.MOD_ITEMS_OTHER))
                 items.append(pre[1] + pair[1] + "\n" + vis_fn(rng, name, i))
+                truth.append(gated(name, items[-1]))
+                continue
+            if rng.random() < 0.1:
+                # gated through a cfg_attr that carries nothing but cfg(..): mirrored as written (it keeps the fn when its predicate is false)
+                g = rng.choice(["#[cfg_attr(any(), cfg(any()))]", "#[cfg_attr(all(), cfg(all()))]", "#[cfg_attr(feature = \"lean\", cfg(feature = \"diag\"))]",
+                                "#[cfg_attr(not(test), cfg(not(miri)))]"])
+                items.append(rng.choice(["", "/// docs first\n"]) + g + "\n" + vis_fn(rng, name, i))
                 truth.append(gated(name, items[-1]))
                 continue
             items.append(vis_fn(rng, name, i))
